@@ -17,3 +17,4 @@ def run(ck):
     codec.r12_simd_helpers(ck, P, 'C09-R8')                     # the widening helpers the fetchers delegate to
     opacity.r9_solid_substitution_excludes_kernels(ck, P)
     geometry.r14_hull_needs_constant_sign_of_w(ck, P, 'C09-R10')   # COVER_CLIP promotes an alpha-less source to opaque
+    codec.r17_converted_pixels_get_the_alpha_mask(ck, P, 'C09-R11')
